@@ -133,6 +133,11 @@ func RunExportImport(c *core.Ctx) {
 		}
 		docs[i] = d
 	}
+	if n > 0 {
+		// a fixed document with numbers as direct array elements at several depths, next to maps in arrays
+		docs[0]["matrix"] = []any{[]any{int64(1), int64(0)}, []any{float64(0.5), int64(-3)}, int64(7), []any{[]any{uint64(2)}}}
+		docs[0]["mixed"] = []any{int64(1), float64(2.5), "s", nil, true, map[string]any{"k": []any{int64(9)}}}
+	}
 	s.Insert("src", docs, false)
 	s.Insert("other", []map[string]any{{"_id": r.UUID(), "a": int64(1)}}, false)
 	indexed := r.Bool()
